@@ -1,19 +1,21 @@
 """C15 — node restrictions cannot be escaped by navigating the container (DESIGN 4/C15)."""
 import json
 
-from vt.runner import Part
+from vt.runner import Part, replay_native
 
 H = "vt.harness.c15"
+HR = "vt.harness.c15_real"
 
 META = {
     "technique": "CrossHair (z3) symbolic execution of the real MetadorNode/MetadorGroup/MetadorDataset/WrappedAttributeManager/MetadorMeta guards with the three ACL flags as symbolic booleans: one-step induction over every navigation primitive and every mutating/reading member, recording raw objects",
     "explanation": "bounded symbolic execution of the real functions; exhaustive over all flag combinations per primitive; inductive over navigation chains of any length",
     "bounds": {"quick": {"nav": "21 navigation primitives (incl. the upward members parent/file applied to every derived node, datasets too) x all flag combinations (restrict: all 64 combinations of old/new flags)",
                           "mutate": "22 mutating members (group, dataset, attribute manager incl. MutableMapping mixins, metadata) on read_only nodes",
-                          "skel": "14 reading members on skel_only nodes", "restrict_monotone": "all 512 flag triples"}},
+                          "skel": "14 reading members on skel_only nodes", "restrict_monotone": "all 512 flag triples",
+                          "closure": "real container stack on the substrate (plain file and IH5 record with a patch boundary, reopened), 5 start nodes (root, groups at depth 1/2, datasets at depth 2/3) x 8 flag combinations (solver-chosen, realised), navigation chains of length <= 3 (thorough: 4) over parent/file/restrict/query(3 schemas)/values/items/getitem/get/require_group/visititems/absolute paths, then 20+ mutators and 10 readers on every node reached"}},
     "outside": ["bypassing through __wrapped__/private attributes (documented as soft restrictions)", "widgets' and packers' own use of restricted nodes",
                 "real h5py objects (recording mocks stand in for raw nodes)"],
-    "stubs": ["numpy.cumproduct import shim", "recording raw group/dataset/attribute objects", "container stand-in providing metador.query and an empty raw metadata store"],
+    "stubs": ["numpy.cumproduct import shim", "recording raw group/dataset/attribute objects", "container stand-in providing metador.query and an empty raw metadata store (one-step harnesses only; the closure partitions use the real container)", "in-memory h5py substrate for the closure partitions (counterexamples are replayed on real h5py files)"],
     "assumptions": [],
 }
 
@@ -25,9 +27,25 @@ def plan(tier, seed):
     parts += [Part(H, "skel", {"m": m}, 120, 30, "(I2) skel_only: no dataset content / attribute value / metadata object is read") for m in HC.READS]
     parts.append(Part(H, "restrict_monotone", {}, 300, 30, "(I3) restrict() only adds flags"))
     parts.append(Part(H, "mutators_known", {}, 30, 30, "mutator list covers protocol + _self_RO_FORBIDDEN + MutableMapping mixins"))
+    for drv in ("h5", "ih5"):
+        parts.append(Part(HR, "closure", {"drv": drv, "depth": 2 if tier == "quick" else 3}, 600 if tier == "quick" else 3000, 120,
+                          "navigation closure on the real container stack (real query, metadata, both drivers): flags kept, "
+                          "local_only stays inside, read_only refuses every mutator (store unchanged), skel_only yields nothing"))
     return parts
 
 
 def confirm(part, kwargs, native):
+    if part.module == HR:
+        # stage 2: the same closure on real h5py files
+        r = replay_native(Part(part.module, part.func, dict(part.sel, realfs=1)), repr(kwargs))
+        rp = r.get("replay") or {}
+        notes = r.get("notes") or []
+        if rp.get("ok", False):
+            return {"confirmed": False, "what": "does not reproduce on real h5py files", "stage2": rp}
+        if rp.get("exc"):
+            return {"harness_error": "real-file replay crashed: " + str(rp.get("exc"))[:400] + str(rp.get("tb", ""))[-600:]}
+        what = str(notes[0])[:500] if notes else "oracle false"
+        return {"confirmed": True, "key": "closure:" + what[:100], "stage2": rp,
+                "what": f"{part.sel.get('drv')} driver, real h5py files, {json.dumps(kwargs)}: {what}"}
     return {"confirmed": True, "key": f"{part.func}:{json.dumps(part.sel, sort_keys=True)}",
             "what": f"{part.func} sel={part.sel} flags={json.dumps(kwargs)}: {native.get('exc') or 'oracle false'} (real wrapper classes; recording raw objects)"}
